@@ -20,8 +20,8 @@ import (
 )
 
 var (
-	listed  = stderrors.New("ignorable failure")
-	plain   = stderrors.New("plain failure")
+	listed = stderrors.New("ignorable failure")
+	plain  = stderrors.New("plain failure")
 )
 
 // handler results
